@@ -40,6 +40,14 @@ func (m *hotReloadManager) startServer() error {
 	m.mu.Lock()
 	defer m.mu.Unlock()
 
+	// Load the new version first. A file that cannot be read, parsed or
+	// compiled must leave the running server alone: shutting it down before
+	// looking at the file took the dev server off the air on every broken save.
+	srv, useCompiler, err := m.buildDevServer()
+	if err != nil {
+		return err
+	}
+
 	// Stop existing server if running
 	if m.server != nil {
 		ctx, cancel := context.WithTimeout(context.Background(), 2*time.Second)
@@ -48,34 +56,40 @@ func (m *hotReloadManager) startServer() error {
 		time.Sleep(100 * time.Millisecond) // Allow port to be released
 	}
 
-	// Start dev server with live reload support
-	srv, err := m.startDevServerInternal()
-	if err != nil {
-		return err
-	}
-
+	m.listenDevServer(srv, useCompiler)
 	m.server = srv
 	return nil
 }
 
 // startDevServerInternal starts the development server with live reload support
 func (m *hotReloadManager) startDevServerInternal() (*http.Server, error) {
+	srv, useCompiler, err := m.buildDevServer()
+	if err != nil {
+		return nil, err
+	}
+	m.listenDevServer(srv, useCompiler)
+	return srv, nil
+}
+
+// buildDevServer reads, parses and sets up the current source file and
+// returns a server that is ready to listen but not started yet.
+func (m *hotReloadManager) buildDevServer() (*http.Server, bool, error) {
 	// Read source file
 	source, err := os.ReadFile(m.filePath)
 	if err != nil {
-		return nil, fmt.Errorf("failed to read file: %w", err)
+		return nil, false, fmt.Errorf("failed to read file: %w", err)
 	}
 
 	// Parse the source
 	module, err := parseSource(string(source))
 	if err != nil {
-		return nil, fmt.Errorf("parse error: %w", err)
+		return nil, false, fmt.Errorf("parse error: %w", err)
 	}
 
 	// Use shared logic for route compilation/interpretation
 	useCompiler, _, wsServer, router, err := setupRoutes(module, m.filePath)
 	if err != nil {
-		return nil, err
+		return nil, false, err
 	}
 
 	// Create HTTP server with live reload support
@@ -103,7 +117,7 @@ func (m *hotReloadManager) startDevServerInternal() (*http.Server, error) {
 
 	// Register static file routes
 	if err := registerStaticRoutes(mux, module, m.filePath, m.port); err != nil {
-		return nil, err
+		return nil, false, err
 	}
 
 	srv := &http.Server{
@@ -115,6 +129,11 @@ func (m *hotReloadManager) startDevServerInternal() (*http.Server, error) {
 		MaxHeaderBytes: 1 << 20, // 1 MB
 	}
 
+	return srv, useCompiler, nil
+}
+
+// listenDevServer starts serving in the background.
+func (m *hotReloadManager) listenDevServer(srv *http.Server, useCompiler bool) {
 	// Start server in background
 	go func() {
 		mode := "compiled"
@@ -131,8 +150,6 @@ func (m *hotReloadManager) startDevServerInternal() (*http.Server, error) {
 
 	// Give server time to start
 	time.Sleep(100 * time.Millisecond)
-
-	return srv, nil
 }
 
 // handleLiveReload handles Server-Sent Events for live reload
